@@ -1721,6 +1721,21 @@ var _ uuid.UUID
 // a new index: the defaults of a configuration without options (ef 20, efConstruction 200, m 16, mMax 16, mMax0 32, simple
 // selection), sixteen shard maps of its own, nothing stored, the given dimension and metric; a partition's index gets the
 // dimension and the metric of its dataset's record
+// C11 ("success only if committed and applied"): a waiting proposer takes whatever its notification channel yields as its
+// outcome, so nothing but Remove (of the waiter's own id, after the wait) may close a notification channel - closing a
+// partition stops its group and closes no channel (a closed channel would read as a nil outcome, i.e. as success)
+//@ func (*storage.partition).close
+//@ props C11 C14
+//@ safety UNCLAIMED
+//@ noclose *
+//@ ghost stops int = 0
+//@ at call RaftGroup).Stop
+//@ requires [C14 stops-its-own-group] $arg0 == this.raft && this.raft != nil && stops == 0
+//@ set stops = 1
+//@ end
+//@ ensures [C14 a-loaded-group-is-stopped] old(this.raft) != nil ==> stops == 1
+//@ modifies * except set catalogue
+
 // ---------------------------------------------------------------------------------------------
 // C14 ("its partitions stop serving"): the allocator loop. Every announced partition is asked about - "is this node in its
 // replica set NOW" (the catalogue record at the time of the announcement, nothing remembered aside) - and exactly the hosted
